@@ -5,6 +5,8 @@ package webdoc
 import (
 	"sort"
 
+	"github.com/markusmobius/go-domdistiller/internal/label"
+
 	"github.com/go-shiori/dom"
 )
 
@@ -42,6 +44,22 @@ func (doc *Document) VerifSummary() []interface{} {
 			rec["type"] = el.Type
 		}
 		out = append(out, rec)
+	}
+	return out
+}
+
+// VerifBlocks describes the text blocks for the verification trace: per block the
+// offsets of its Text elements, its content flag and whether it is labelled as title.
+// It only reads.
+func (td *TextDocument) VerifBlocks() []interface{} {
+	out := make([]interface{}, 0, len(td.TextBlocks))
+	for _, tb := range td.TextBlocks {
+		offs := make([]interface{}, 0, len(tb.TextElements))
+		for _, t := range tb.TextElements {
+			offs = append(offs, t.OffsetBlock)
+		}
+		title := tb.HasLabel(label.Title)
+		out = append(out, map[string]interface{}{"texts": offs, "c": tb.IsContent(), "title": title})
 	}
 	return out
 }
